@@ -90,13 +90,19 @@ def install_builtins(E):
         raise Unsupported('max%r' % (tuple(args),))
     B['max'] = _max
 
-    @stub('min')
-    def _min(E, args, kw):
-        if len(args) == 2 and all(isinstance(a, (VInt, VBool)) for a in args):
-            x, y = [a.t if isinstance(a, VInt) else z3.If(a.t, 1, 0) for a in args]
-            return VInt(z3.If(x <= y, x, y))
-        raise Unsupported('min%r' % (tuple(args),))
-    B['min'] = _min
+    def _minmax(name):
+        def fn(E, args, kw):
+            args = [E.unopt(a) if isinstance(a, VOpt) else a for a in args]
+            if len(args) == 2 and all(isinstance(a, (VInt, VBool)) for a in args):
+                x, y = [a.t if isinstance(a, VInt) else z3.If(a.t, 1, 0) for a in args]
+                return VInt(z3.If((x <= y) if name == 'min' else (x >= y), x, y))
+            if len(args) == 2 and all(isinstance(a, (VInt, VBool, VReal)) for a in args):
+                x, y = [_real(a) for a in args]
+                return VReal(z3.If((x <= y) if name == 'min' else (x >= y), x, y))
+            raise Unsupported('%s%r' % (name, tuple(args)))
+        return fn
+    B['min'] = VStub('min', _minmax('min'))
+    B['max'] = VStub('max', _minmax('max'))
 
     @stub('len')
     def _len(E, args, kw):
@@ -313,7 +319,15 @@ def lock_acquire(E, lock, blocking=None, timeout=None):
         t1 = E.fresh('now', z3.RealSort())
         E.assume(t1 >= t0)
         E.assume(z3.Implies(z3.Not(bl), t1 == t0))
-        E.assume(z3.Implies(z3.And(bl, to >= 0), t1 <= t0 + to))
+        if getattr(E, 'timer_slack', False):
+            # a lock handed over right AT the deadline: by the time the caller reads the clock again a little more
+            # than the timeout may have gone by (platform timer slack, accounted for separately)
+            eps = E.fresh('timer_slack', z3.RealSort())
+            E.assume(eps >= 0)
+            E.w['slack'] = wget(E, 'slack', lambda: z3.RealVal(0)) + eps
+            E.assume(z3.Implies(z3.And(bl, to >= 0), t1 <= t0 + to + eps))
+        else:
+            E.assume(z3.Implies(z3.And(bl, to >= 0), t1 <= t0 + to))
         E.w['now'] = t1
         E.w[kd] = z3.IntVal(1)
         E.w[ko] = E.me
